@@ -51,6 +51,10 @@ def gen_db(rng):
         for _ in range(rng.randint(1, 6)):
             oid = grp + tuple(rng.choice(gen.SUBID_POOL[:12]) if rng.random() < 0.4 else rng.randint(0, 9) for _ in range(rng.randint(1, 3)))
             db[oid] = gen.gen_value(rng)
+    if rng.random() < 0.2:
+        # the agent's own usmStats counters are ordinary readable objects
+        for x in rng.sample(range(1, 7), rng.randint(1, 3)):
+            db[(1, 3, 6, 1, 6, 3, 15, 1, 1, x, 0)] = ("c32", rng.randint(0, 1000))
     return db
 
 
@@ -166,7 +170,7 @@ def run_case(R, level, op, db, args, label="gen"):
                     viol("v1 noSuchName: expected NoSuchOID, got %r" % (res[1],))
                 return
             if res[0] != "ok":
-                viol("conformant agent, yet %s raised %r" % (op, res[1]))
+                viol("conformant agent, yet %s raised %r" % (op, res[1]), "usmstats-binding-taken-for-report" if "Error response from remote device" in str(res[1]) else None)
                 return
             got = [to_tuple(res[1])] if op == "get" else [to_tuple(v) for v in res[1]]
             if got != exp:
@@ -477,6 +481,9 @@ def run(R):
             run_case(R, level, "multigetnext", db, {"oids": [(1, 3), last, (1, 3)]}, "corner")
             if level != "v1":
                 run_case(R, level, "bulkget", db, {"scalars": [last], "repeaters": [(1, 3), last], "maxrep": 3}, "corner")
+            stats = {(1, 3, 6, 1, 6, 3, 15, 1, 1, x, 0): ("c32", x) for x in range(1, 7)}
+            run_case(R, level, "multiget", dict(db, **stats), {"oids": sorted(stats)[:3]}, "corner-usmstats")
+            run_case(R, level, "getnext", dict(db, **stats), {"oids": [(1, 3, 6, 1, 6, 3, 15, 1, 1, 3)]}, "corner-usmstats")
 
 
 def replay(R, v):
